@@ -1,6 +1,7 @@
 from datetime import datetime, timezone
 from typing import Any, TYPE_CHECKING
 from functools import lru_cache
+from numbers import Integral, Real
 
 from dliswriter.utils.internal.internal_enums import RepresentationCode
 
@@ -136,7 +137,6 @@ _struct_dict = {
 }
 
 
-@lru_cache(maxsize=65536)
 def write_struct(representation_code: RepresentationCode, value: Any) -> bytes:
     """Convert a value to bytes according to the RP66 V1 spec.
 
@@ -148,8 +148,22 @@ def write_struct(representation_code: RepresentationCode, value: Any) -> bytes:
         Value converted to bytes depending on representation_code and RP66 V1 spec.
     """
 
+    if isinstance(value, Real) and not isinstance(value, Integral) and value == 0:
+        # 0.0 and -0.0 compare (and hash) equal, so they would share a single cache entry
+        # and whichever was encoded first would be written for both; encode zeros directly
+        return _write_struct(representation_code, value)
+
+    return _write_struct_cached(representation_code, value)
+
+
+def _write_struct(representation_code: RepresentationCode, value: Any) -> bytes:
+    """Convert a value to bytes according to the RP66 V1 spec (see write_struct)."""
+
     func = _struct_dict.get(representation_code, None)  # get a converter corresponding to the repr code
     if func:
         return func(value)  # type: ignore  # that's the point, we're calling for any type
 
     return representation_code.convert(value)  # if no converter was found, use the one built in the enum
+
+
+_write_struct_cached = lru_cache(maxsize=65536)(_write_struct)
